@@ -228,6 +228,8 @@ def make_trace(tid: int, desc: dict, tag: str, o: dict, extra_species: list[str]
     R = [{"r": [slot[x] for x in r if x not in PSEUDO], "p": [slot[x] for x in p if x not in PSEUDO]} for r, p in desc["reactions"]]
     M, ftext = [], {}
     for sname, ex in (desc.get("ode_modifier") or {}).items():
+        if sname in (desc.get("absent_modifier_species") or []):
+            continue        # (rendered although the species is absent: the model has no term for it, so any emitted term is a mismatch)
         for fact, deps in zip(ex["factors"], ex["reactants"]):
             fid = len(M)
             ftext[norm_factor(fact)] = fid
@@ -571,6 +573,10 @@ def main(ctx: Ctx) -> int:
         {"reactions": [(["Si", "O"], ["SiO"]), (["S+", "e-"], ["S"]), (["SiO", "S+"], ["SO+", "Si"]), (["Si+", "S"], ["Si", "S+"])], "required": [],
          "origin": "random"},
         {"reactions": [(["S+", "SiH"], ["HS+", "Si"]), (["Si+", "e-"], ["Si"]), (["S", "Si+"], ["S+", "Si"])], "required": ["SO"], "origin": "random"},
+        # a modifier that names a species the network does not hold, listed AFTER one it does hold: refused, or ignored -- never applied to another
+        {"reactions": [(["H", "H"], ["H2"]), (["H2", "He+"], ["H", "H+", "He"]), (["H+", "e-"], ["H"])], "required": [],
+         "ode_modifier": {"H2": {"factors": ["-mf0"], "reactants": [["H"]]}, "CO": {"factors": ["0.5 * mf1", "-kads"], "reactants": [["H"], ["H", "He"]]}},
+         "absent_modifier_species": ["CO"], "origin": "random"},
         # a user-declared pseudo-reactant (not one of the built-in names)
         {"reactions": [(["H", "XR"], ["H+", "e-"]), (["H+", "e-"], ["H"]), (["He", "XR"], ["He+", "e-"]), (["He+", "e-", "UV"], ["He"])], "required": [],
          "pseudo_elements": PSEUDO + ["XR", "UV"], "pseudo_prefixes": True, "origin": "random"},
@@ -649,6 +655,9 @@ def main(ctx: Ctx) -> int:
                 net = prebuilt.get(ci) or build_network(desc)
             obs = observe(ctx, net, desc, ci, with_pattern=(ci % 3 == 0))
         except Exception as e:   # noqa
+            if desc.get("absent_modifier_species"):
+                cov["refused_modifier_for_absent_species"] = cov.get("refused_modifier_for_absent_species", 0) + 1
+                continue          # a refusal is what the property allows here
             ctx.violation(f"{pid}|Render|{type(e).__name__}", f"rendering raised {type(e).__name__}: {e} for {desc.get('origin')} network "
                           f"{desc['reactions'][:4]}", {"desc": {k: v for k, v in desc.items() if k != 'N'}})
             continue
@@ -729,6 +738,8 @@ def main(ctx: Ctx) -> int:
             prop = pid
         if evk == "Modifier" and clause == "RhsTerms":
             prop = "C13"
+        if clause == "NoStrayTerms" and pid == "C13" and descs[meta[t][0]].get("ode_modifier"):
+            prop = "C13"      # an emitted term no reaction / modifier of the model accounts for, in a network that HAS modifiers
         if prop != pid:
             other += 1
             sib[f"{prop}:{clause}"] = sib.get(f"{prop}:{clause}", 0) + 1
